@@ -20,7 +20,7 @@ for f in sorted(glob.glob('/verif/seeded/*/meta.json')):
     if m.get('history'):
         hist_n+=1
         res+=' (after strengthening: '+m['history'].split('generator: ')[-1]+')'
-    rnd = 1 if name.endswith(('-1','-2')) else (2 if name.endswith(('-3','-4')) else (3 if name.endswith(('-5','-6')) else 4))
+    rnd = 1 if name.endswith(('-1','-2')) else (2 if name.endswith(('-3','-4')) else (3 if name.endswith(('-5','-6')) else (5 if name.endswith('-9') else 4)))  # 5 = continuation mini-batch
     per_round.setdefault(rnd,[0,0,0,0]); per_round[rnd][0]+=1
     per_round[rnd][1 if res.startswith('quick') else (2 if res.startswith('thorough') else 3)]+=1
     if rnd==3 and (m.get('history') or m.get('override')): r3_missed+=1
